@@ -400,8 +400,10 @@ func (stub *stub) Start(ctx context.Context) (retErr error) {
 
 	stub.session++
 	session := stub.session
+	connLostC := make(chan struct{})
 	clientOpts := []ttrpc.ClientOpts{
 		ttrpc.WithOnClose(func() {
+			close(connLostC)
 			stub.connClosed(session)
 		}),
 	}
@@ -433,7 +435,17 @@ func (stub *stub) Start(ctx context.Context) (retErr error) {
 		return err
 	}
 
-	if err = <-stub.cfgErrC; err != nil {
+	select {
+	case err = <-stub.cfgErrC:
+	case <-connLostC:
+		// the configuration result, if there is one already, takes precedence
+		select {
+		case err = <-stub.cfgErrC:
+		default:
+			err = fmt.Errorf("connection to NRI/Runtime lost before the plugin was configured")
+		}
+	}
+	if err != nil {
 		return err
 	}
 
